@@ -15,6 +15,7 @@ func init() {
 	Families["notifyinflight"] = famNotifyInflight
 	Families["fastpathsnap"] = famFastPathSnap
 	Families["snapcfgterm"] = famSnapCfgTerm
+	Families["restorestale"] = famRestoreStale
 }
 
 func othersOf(opt Options, a string) []string {
@@ -400,6 +401,73 @@ func famSnapCfgTerm(t *testing.T, seed int64, steps int) *Cluster {
 	c.Drive(12*time.Second, nil, func() bool {
 		l := c.Leader()
 		return l != "" && l != A && c.byID[A].Raft.LastIndex() >= c.byID[l].Raft.LastIndex() && c.byID[A].Raft.CurrentTerm() == c.byID[l].Raft.CurrentTerm()
+	})
+	if l := c.Leader(); l != "" {
+		c.Apply(l, 0)
+		c.Settle("client")
+	}
+	c.Drive(200*time.Millisecond, nil, nil)
+	c.converge(600 * time.Millisecond)
+	return c
+}
+
+// famRestoreStale (C20): the deposed leader A holds a stale, never committed suffix that reaches (or passes) the index
+// a user Restore burns on the new leader B. After the partition heals A has to end up with the restored state followed
+// by the later entries, like everybody else - whatever its log looked like.
+func famRestoreStale(t *testing.T, seed int64, steps int) *Cluster {
+	opt := DefaultOptions(seed)
+	opt.Family = "restorestale"
+	opt.Mono = seed%4 == 3
+	opt.Trailing = uint64(seed % 3)
+	c := NewCluster(t, opt)
+	c.Bootstrap()
+	c.StartAll()
+	A := c.WaitLeader(2 * time.Second)
+	if A == "" {
+		return c
+	}
+	fs := othersOf(opt, A)
+	B, C := fs[int(seed)%2], fs[1-int(seed)%2]
+	for i := 0; i < 1+int(seed%3); i++ {
+		c.Apply(A, 0)
+		c.Settle("client")
+	}
+	c.Drive(80*time.Millisecond, nil, nil)
+	if c.Leader() != A {
+		c.converge(500 * time.Millisecond)
+		return c
+	}
+	c.isolate(A)
+	for i := 0; i < 2+int(seed/2)%3; i++ {
+		c.Apply(A, 0)
+		c.Settle("client")
+	}
+	c.dropPendingFrom(A)
+	ok := c.Drive(4*time.Second, func(r *Rpc) bool { return !(r.Src == C && (r.Kind == "pv" || r.Kind == "rv")) }, func() bool {
+		return c.byID[B].Raft.State() == raft.Leader && c.byID[B].Raft.CommitIndex() >= c.byID[B].Raft.LastIndex()
+	})
+	if !ok {
+		c.healAll()
+		c.converge(600 * time.Millisecond)
+		return c
+	}
+	if seed%5 == 4 {
+		c.Apply(B, 0)
+		c.Settle("client")
+		c.Drive(40*time.Millisecond, nil, nil)
+	}
+	rop := c.UserRestore(B, []string{"r1", "r2"}, uint64(seed%2)*3, 1, 0)
+	c.Settle("client")
+	c.Drive(400*time.Millisecond, nil, func() bool { return rop != nil && rop.Done })
+	if l := c.Leader(); l != "" && l != A && seed%2 == 0 {
+		c.Apply(l, 0)
+		c.Settle("client")
+		c.Drive(60*time.Millisecond, nil, nil)
+	}
+	c.healAll()
+	c.Drive(12*time.Second, nil, func() bool {
+		l := c.Leader()
+		return l != "" && l != A && c.byID[A].Raft.AppliedIndex() >= c.byID[l].Raft.CommitIndex() && c.byID[A].Raft.CurrentTerm() == c.byID[l].Raft.CurrentTerm()
 	})
 	if l := c.Leader(); l != "" {
 		c.Apply(l, 0)
